@@ -547,6 +547,13 @@ def run_real(case):
                 out.append(Disc('real.cookie.keyring-entry-missing', 'context %r id %r' % (ctx, cid)))
                 return out
             cchal = binascii.hexlify(hashlib.sha1(case['nonce'].encode()).digest())
+            # the client's challenge is an opaque string of its own choosing: lower-case hex (what most clients send),
+            # upper-case hex, or any other token without blanks
+            style = case.get('chal', 'lower')
+            if style == 'upper':
+                cchal = cchal.upper()
+            elif style == 'token':
+                cchal = b'Nonce-' + cchal[:12].upper() + b'_z'
             good = binascii.hexlify(hashlib.sha1(schal + b':' + cchal + b':' + cookie).digest())
             v = case['variant']
             if v == 'right':
@@ -681,6 +688,10 @@ def run_cookie_overlap(case):
                 if cookie is None:
                     return [Disc('overlap.keyring-entry-missing', 'connection %d: id %r' % (c, cid))]
                 cchal = binascii.hexlify(hashlib.sha1(b'client%d' % c).digest())
+                if c == 1:
+                    cchal = cchal.upper()
+                elif c == 2:
+                    cchal = b'Nonce-' + cchal[:12].upper()
                 resp = cchal + b' ' + binascii.hexlify(hashlib.sha1(schal + b':' + cchal + b':' + cookie).digest())
                 conns[c] = (srv, log, cid, resp)
             elif op == 'cancel':
@@ -721,7 +732,8 @@ def real_case(draw, tier):
     return {'mech': mech, 'variant': draw(st.sampled_from(COOKIE_VARIANTS)),
             'ident': draw(st.sampled_from(['name', 'uid'])),
             'nonce': draw(st.text(alphabet='abcdef0123', min_size=1, max_size=8)), 'creds': 'none',
-            'prefill': draw(st.sampled_from([None, None, 'stale', 'fresh', 'both']))}
+            'prefill': draw(st.sampled_from([None, None, 'stale', 'fresh', 'both'])),
+            'chal': draw(st.sampled_from(['lower', 'lower', 'upper', 'token']))}
 
 
 def classify_real(case):
